@@ -87,6 +87,9 @@ func (w *ConfigurationWatcher) Start(ch chan<- controller.ID) error {
 		for event := range eventCh {
 			ch <- controller.NewID(proposalstore.NewID(event.Configuration.TargetID, event.Configuration.Index))
 			ch <- controller.NewID(proposalstore.NewID(event.Configuration.TargetID, event.Configuration.Status.Applied.Index))
+			// Configuration.Index goes back when a rollback is committed: the latest committed proposal is the one
+			// that finds (through its predecessors) the proposals still to be applied
+			ch <- controller.NewID(proposalstore.NewID(event.Configuration.TargetID, event.Configuration.Status.Committed.Index))
 		}
 	}()
 	return nil
